@@ -1232,6 +1232,145 @@ Proof.
     unfold angmom_prim, cross3, prim3. cbn [map combine nth tget unit_order fst snd]. ring.
 Qed.
 
+(* ---- reflection of the x axis, block level ---- *)
+Lemma omax_ge orders o : In o orders ->
+  (fst (fst o) <= omax orders /\ snd (fst o) <= omax orders /\ snd o <= omax orders)%nat.
+Proof.
+  induction orders as [|[[px py] pz] os IH]; intros Hin; [destruct Hin|].
+  destruct Hin as [<-|Hin]; cbn [omax fold_right fst snd].
+  - lia.
+  - specialize (IH Hin). unfold omax in IH. lia.
+Qed.
+
+Theorem mm_block_reflect_x Cx Cy Cz orders sa sb io ma ia mb ib :
+  (forall x, fapx K x = x) -> 1 + 1 <> 0 -> exps_ok sa sb -> comps_within sa -> comps_within sb ->
+  (io < length orders)%nat -> (ma < nseg sa)%nat -> (mb < nseg sb)%nat ->
+  (ia < length (comps_of sa))%nat -> (ib < length (comps_of sb))%nat ->
+  get4 ma ia mb ib (nth io (mm_block K (- Cx) Cy Cz orders (reflect_x_shell sa) (reflect_x_shell sb)) [])
+  = sg (fst (fst (nth io orders (0, 0, 0)%nat)) + fst (fst (nth ia (comps_of sa) (0, 0, 0)%nat))
+        + fst (fst (nth ib (comps_of sb) (0, 0, 0)%nat)))
+    * get4 ma ia mb ib (nth io (mm_block K Cx Cy Cz orders sa sb) []).
+Proof.
+  intros Hapx H2 Hexp Hca Hcb Hio Hma Hmb Hia Hib.
+  pose proof (comp_le_l sa ia Hca Hia) as Hla. pose proof (comp_le_l sb ib Hcb Hib) as Hlb.
+  pose proof (omax_ge orders _ (nth_In orders (0, 0, 0)%nat Hio)) as Hom.
+  cbv zeta in Hla, Hlb.
+  set (ca := nth ia (comps_of sa) (0, 0, 0)%nat) in *.
+  set (cb := nth ib (comps_of sb) (0, 0, 0)%nat) in *.
+  set (o := nth io orders (0, 0, 0)%nat) in *.
+  unfold get4, mm_block. cbv zeta.
+  rewrite !(nth_map_in _ orders io (0, 0, 0)%nat) by assumption. fold o.
+  rewrite (block_of_entry K (reflect_x_shell sa) (reflect_x_shell sb)) by assumption.
+  rewrite (block_of_entry K sa sb) by assumption.
+  change (comps_of (reflect_x_shell sa)) with (comps_of sa).
+  change (comps_of (reflect_x_shell sb)) with (comps_of sb).
+  change (norms K (reflect_x_shell sa)) with (norms K sa).
+  change (norms K (reflect_x_shell sb)) with (norms K sb).
+  change (entry_sum K (reflect_x_shell sa) (reflect_x_shell sb)) with (entry_sum K sa sb).
+  fold ca cb.
+  set (Tr := fun alpha beta =>
+        (table K (- s_x sa) (- s_x sb) (- Cx) alpha beta (s_l sa) (s_l sb) (omax orders),
+         table K (s_y sa) (s_y sb) Cy alpha beta (s_l sa) (s_l sb) (omax orders),
+         table K (s_z sa) (s_z sb) Cz alpha beta (s_l sa) (s_l sb) (omax orders))).
+  set (T0 := fun alpha beta =>
+        (table K (s_x sa) (s_x sb) Cx alpha beta (s_l sa) (s_l sb) (omax orders),
+         table K (s_y sa) (s_y sb) Cy alpha beta (s_l sa) (s_l sb) (omax orders),
+         table K (s_z sa) (s_z sb) Cz alpha beta (s_l sa) (s_l sb) (omax orders))).
+  change (tabs K (- Cx) Cy Cz orders (reflect_x_shell sa) (reflect_x_shell sb))
+    with (map (fun beta => map (fun alpha => Tr alpha beta) (s_exps sa)) (s_exps sb)).
+  change (tabs K Cx Cy Cz orders sa sb)
+    with (map (fun beta => map (fun alpha => T0 alpha beta) (s_exps sa)) (s_exps sb)).
+  assert (Epp : forall (Tx : F -> F -> table3 (F:=F)),
+    map (map (fun t0 => prim3 K t0 o ca cb))
+        (map (fun beta => map (fun alpha => Tx alpha beta) (s_exps sa)) (s_exps sb))
+    = map (fun beta => map (fun alpha => prim3 K (Tx alpha beta) o ca cb) (s_exps sa)) (s_exps sb)).
+  { intros Tx. rewrite map_map. apply map_ext; intros b. rewrite map_map. reflexivity. }
+  rewrite !Epp.
+  fold (esum sa sb (fun alpha beta => prim3 K (Tr alpha beta) o ca cb)
+             (nth ia (norms K sa) []) (nth ib (norms K sb) []) ma mb).
+  fold (esum sa sb (fun alpha beta => prim3 K (T0 alpha beta) o ca cb)
+             (nth ia (norms K sa) []) (nth ib (norms K sb) []) ma mb).
+  apply esum_scale. intros a b Ha Hb. unfold Tr, T0.
+  apply prim3_reflect_x; try assumption; try tauto. apply (Hexp a b Ha Hb).
+Qed.
+
+Theorem overlap_block_reflect_x sa sb ma ia mb ib :
+  (forall x, fapx K x = x) -> 1 + 1 <> 0 -> exps_ok sa sb -> comps_within sa -> comps_within sb ->
+  (ma < nseg sa)%nat -> (mb < nseg sb)%nat ->
+  (ia < length (comps_of sa))%nat -> (ib < length (comps_of sb))%nat ->
+  get4 ma ia mb ib (overlap_block K (reflect_x_shell sa) (reflect_x_shell sb))
+  = sg (fst (fst (nth ia (comps_of sa) (0, 0, 0)%nat)) + fst (fst (nth ib (comps_of sb) (0, 0, 0)%nat)))
+    * get4 ma ia mb ib (overlap_block K sa sb).
+Proof.
+  intros Hapx H2 Hexp Hca Hcb Hma Hmb Hia Hib. unfold overlap_block.
+  change (hd [] ?l) with (nth 0 l []).
+  assert (E : mm_block K 0 0 0 [(0, 0, 0)%nat] (reflect_x_shell sa) (reflect_x_shell sb)
+              = mm_block K (- 0) 0 0 [(0, 0, 0)%nat] (reflect_x_shell sa) (reflect_x_shell sb)) by reflexivity.
+  rewrite E.
+  rewrite (mm_block_reflect_x 0 0 0 [(0, 0, 0)%nat] sa sb 0 ma ia mb ib) by (assumption || (cbn; lia)).
+  reflexivity.
+Qed.
+
+Theorem diffop_block_reflect_x orders sa sb io ma ia mb ib :
+  (forall x, fapx K x = x) -> 1 + 1 <> 0 -> exps_ok sa sb -> comps_within sa -> comps_within sb ->
+  (io < length orders)%nat -> (ma < nseg sa)%nat -> (mb < nseg sb)%nat ->
+  (ia < length (comps_of sa))%nat -> (ib < length (comps_of sb))%nat ->
+  get4 ma ia mb ib (nth io (diffop_block K orders (reflect_x_shell sa) (reflect_x_shell sb)) [])
+  = sg (fst (fst (nth io orders (0, 0, 0)%nat)) + fst (fst (nth ia (comps_of sa) (0, 0, 0)%nat))
+        + fst (fst (nth ib (comps_of sb) (0, 0, 0)%nat)))
+    * get4 ma ia mb ib (nth io (diffop_block K orders sa sb) []).
+Proof.
+  intros Hapx H2 Hexp Hca Hcb Hio Hma Hmb Hia Hib.
+  pose proof (comp_le_l sa ia Hca Hia) as Hla. pose proof (comp_le_l sb ib Hcb Hib) as Hlb.
+  pose proof (omax_ge orders _ (nth_In orders (0, 0, 0)%nat Hio)) as Hom.
+  cbv zeta in Hla, Hlb.
+  set (ca := nth ia (comps_of sa) (0, 0, 0)%nat) in *.
+  set (cb := nth ib (comps_of sb) (0, 0, 0)%nat) in *.
+  set (o := nth io orders (0, 0, 0)%nat) in *.
+  unfold get4, diffop_block. cbv zeta.
+  rewrite !(nth_map_in _ orders io (0, 0, 0)%nat) by assumption. fold o.
+  rewrite (block_of_entry K (reflect_x_shell sa) (reflect_x_shell sb)) by assumption.
+  rewrite (block_of_entry K sa sb) by assumption.
+  change (comps_of (reflect_x_shell sa)) with (comps_of sa).
+  change (comps_of (reflect_x_shell sb)) with (comps_of sb).
+  change (norms K (reflect_x_shell sa)) with (norms K sa).
+  change (norms K (reflect_x_shell sb)) with (norms K sb).
+  change (entry_sum K (reflect_x_shell sa) (reflect_x_shell sb)) with (entry_sum K sa sb).
+  fold ca cb.
+  set (Tr := fun alpha beta =>
+        (dtable K (- s_x sa) (- s_x sb) alpha beta (s_l sa) (s_l sb) (omax orders),
+         dtable K (s_y sa) (s_y sb) alpha beta (s_l sa) (s_l sb) (omax orders),
+         dtable K (s_z sa) (s_z sb) alpha beta (s_l sa) (s_l sb) (omax orders))).
+  set (T0 := fun alpha beta =>
+        (dtable K (s_x sa) (s_x sb) alpha beta (s_l sa) (s_l sb) (omax orders),
+         dtable K (s_y sa) (s_y sb) alpha beta (s_l sa) (s_l sb) (omax orders),
+         dtable K (s_z sa) (s_z sb) alpha beta (s_l sa) (s_l sb) (omax orders))).
+  change (dtabs K (omax orders) (reflect_x_shell sa) (reflect_x_shell sb))
+    with (map (fun beta => map (fun alpha => Tr alpha beta) (s_exps sa)) (s_exps sb)).
+  change (dtabs K (omax orders) sa sb)
+    with (map (fun beta => map (fun alpha => T0 alpha beta) (s_exps sa)) (s_exps sb)).
+  assert (Epp : forall (Tx : F -> F -> table3 (F:=F)),
+    map (map (fun t0 => prim3 K t0 o ca cb))
+        (map (fun beta => map (fun alpha => Tx alpha beta) (s_exps sa)) (s_exps sb))
+    = map (fun beta => map (fun alpha => prim3 K (Tx alpha beta) o ca cb) (s_exps sa)) (s_exps sb)).
+  { intros Tx. rewrite map_map. apply map_ext; intros b. rewrite map_map. reflexivity. }
+  rewrite !Epp.
+  fold (esum sa sb (fun alpha beta => prim3 K (Tr alpha beta) o ca cb)
+             (nth ia (norms K sa) []) (nth ib (norms K sb) []) ma mb).
+  fold (esum sa sb (fun alpha beta => prim3 K (T0 alpha beta) o ca cb)
+             (nth ia (norms K sa) []) (nth ib (norms K sb) []) ma mb).
+  apply esum_scale. intros a b Ha Hb. unfold Tr, T0.
+  apply dprim3_reflect_x; try assumption; try tauto. apply (Hexp a b Ha Hb).
+Qed.
+
+(* the default Cartesian components have their powers within l *)
+Lemma default_comps_within (s : shell F) : s_comps s = [] -> comps_within s.
+Proof.
+  intros Hs c Hc. unfold comps_of in Hc. rewrite Hs in Hc. unfold default_comps in Hc.
+  apply in_flat_map in Hc. destruct Hc as [xx [Hxx Hc]]. apply in_map_iff in Hc.
+  destruct Hc as [yy [<- Hyy]]. apply in_seq in Hxx. apply in_seq in Hyy. cbn [fst snd]. lia.
+Qed.
+
 (* ================================================================== *)
 (* 4. whole-basis functions under a translation                         *)
 (* ================================================================== *)
